@@ -156,6 +156,9 @@ def judge(ctx, owns_crash=False, frame=False, extra_owner=None):
                 viol.append((stage, v, kind))
             else:
                 ctx.stats["foreign_mismatches"] += 1
+                if j.get("owner") == "EXT":      # extended coverage: reported as a note, never as a violation
+                    ctx.stats.setdefault("ext_notes", {}).setdefault("%s: %s" % (j.get("subj"), j.get("msg", "")[:160]), 0)
+                    ctx.stats["ext_notes"]["%s: %s" % (j.get("subj"), j.get("msg", "")[:160])] += 1
             if frame and j.get("frame"):
                 viol.append((stage, v, "frame"))
             continue
